@@ -15,7 +15,7 @@ import (
 )
 
 func c01AsIRI(g *Gen, rep *Report, outDir string, n int) error {
-	rep.Rule += "; asIRI against the decoder model's as_iri on the wide stream of IRI-shaped strings (bytes >= 0x80, escapes, fragments directly after the host, opaque and relative forms, mutations; texts with a quote or backslash, userinfo or an IP literal are sent too: the model may abstain there and only there)"
+	rep.Rule += "; asIRI against the decoder model's as_iri on the wide stream of IRI-shaped strings (bytes >= 0x80, escapes, fragments directly after the host, opaque and relative forms, mutations; userinfo and IP literals; texts with a quote or backslash are sent too: the model may abstain there and only there)"
 	hdr := "From AP.Model Require Import Prelude Vocab Bytes Text JsonDec.\n" +
 		"Definition ok (c : bytes * option bytes * bool) : bool := let '(raw, o, must) := c in\n" +
 		"  match as_iri (FStr raw) with Some r => option_eqb bytes_eqb r o | None => negb must end.\n"
@@ -41,7 +41,7 @@ func c01AsIRI(g *Gen, rep *Report, outDir string, n int) error {
 		} else {
 			rep.Count("asiri:refused")
 		}
-		must := !strings.ContainsAny(s, "\"\\@[")
+		must := !strings.ContainsAny(s, "\"\\") // userinfo and IP literals are inside the URL model (Model/UrlU.v)
 		if !must {
 			rep.Count("asiri:model-may-abstain")
 		}
